@@ -52,6 +52,10 @@ struct G<'a> {
     maxops: usize,
     ncols: Vec<usize>,
     recent_dead: Vec<(String, usize)>,
+    in_battery: bool,
+    panics: usize,
+    fault_profile: bool,
+    own: Vec<(String, usize)>, // handles issued by creates of this world family (never forged / foreign)
 }
 
 const CAPS: &[usize] = &[0, 0, 1, 2, 3, 5, 8, 16, 17];
@@ -61,6 +65,19 @@ impl<'a> G<'a> {
         let obs = self.st.exec(&op);
         println!("{} => {}", op, obs);
         self.ops += 1;
+        if (obs.starts_with("panic") || obs.contains("end=panic") || obs.starts_with("panic:")) && !self.in_battery && self.st.worlds.get(self.st.cur).map_or(false, |w| w.is_some()) {
+            // C10: after every caught panic, the full battery on the world it left behind
+            self.in_battery = true;
+            self.panics += 1;
+            for a in 0..NARCH {
+                self.emit(format!("dump {}", a));
+                self.emit(format!("rows {}", a));
+                self.resync_live(a);
+            }
+            self.emit("events".to_string());
+            self.probe_all(12);
+            self.in_battery = false;
+        }
         obs
     }
     fn budget(&self) -> bool {
@@ -108,8 +125,19 @@ impl<'a> G<'a> {
         let obs = self.emit(format!("{} {} {} {} {}", if within { "createw" } else { "create" }, l, a, h, row));
         if obs.starts_with("e ") {
             self.ents.push((h.clone(), a));
+            self.own.push((h.clone(), a));
             let c = self.cur();
             self.live[c].insert(h);
+        }
+    }
+    fn pick_own(&mut self, a: Option<usize>) -> String {
+        let pick = self.pick_live(a).filter(|h| self.own.contains(h));
+        match pick {
+            Some(h) => h.0,
+            None => {
+                let v = self.own.clone();
+                self.rng.pick(&v).map(|h| h.0.clone()).unwrap_or("h0".to_string())
+            }
         }
     }
     fn pick_live(&mut self, a: Option<usize>) -> Option<(String, usize)> {
@@ -489,12 +517,12 @@ impl<'a> G<'a> {
         match self.rng.below(if small { 10 } else { 8 }) {
             0 | 1 | 2 => format!("( bs {} {} {} {} )", a, col, m, kids),
             3 | 4 => {
-                let h = self.pick_live(Some(a)).or_else(|| self.pick_any_ent()).map(|h| h.0).unwrap_or("h0".to_string());
+                let h = self.pick_own(Some(a));
                 format!("( bc {} {} {} {} {} )", a, h, col, m, kids)
             }
             5 | 6 => {
                 let q = self.rng.below(crate::queries::MENU.len());
-                let h = self.pick_live(None).or_else(|| self.pick_any_ent()).map(|h| h.0).unwrap_or("h0".to_string());
+                let h = self.pick_own(None);
                 format!("( fb q{} {} {} )", q, h, kids)
             }
             7 => "( cl )".to_string(),
@@ -558,6 +586,67 @@ impl<'a> G<'a> {
             }
         }
     }
+    fn live_cells(&self) -> usize {
+        let c = self.cur();
+        match self.st.worlds[c].as_ref() {
+            Some(w) => (0..NARCH).map(|a| crate::dispatch!(a, A => <A as ArchX>::of(w).len() * <A as ArchX>::comps().len())).sum(),
+            None => 0,
+        }
+    }
+    fn fault_op(&mut self) {
+        match self.rng.below(5) {
+            0 => {
+                // a panicking Clone::clone at a random point of world.clone()
+                let n = self.live_cells();
+                let k = self.rng.below(n + 2);
+                if self.st.worlds.len() < 5 {
+                    let obs = self.emit(format!("clone fault={}", k));
+                    if obs.starts_with('w') {
+                        let c = self.cur();
+                        let l = self.live[c].clone();
+                        self.live.push(l);
+                    }
+                }
+            }
+            1 => {
+                // a panicking Drop::drop inside a destroy that drops the components itself
+                if let Some(h) = self.pick_live(None) {
+                    let k = self.rng.below(self.ncols[h.1] + 1);
+                    let obs = self.emit(format!("destroy w y {} fault={}", h.0, k));
+                    if obs.starts_with("some") || obs.starts_with("panic Injected") {
+                        let c = self.cur();
+                        self.live[c].remove(&h.0);
+                        self.recent_dead.push(h.clone());
+                    }
+                }
+            }
+            _ => {
+                // a panicking closure at its k-th call, in each of the query macros
+                let q = self.rng.below(crate::queries::MENU.len());
+                let total = self.total_len();
+                let k = self.rng.below(total + 2);
+                match self.rng.below(4) {
+                    0 => { let ad = 1 + self.rng.below(5); self.emit(format!("iter q{} pan={} add={}", q, k, ad)); }
+                    1 => { let ad = 1 + self.rng.below(5); self.emit(format!("iterb q{} pan={} add={}", q, k, ad)); }
+                    2 => {
+                        let dec: String = (0..total + 1).map(|_| ['c', 'd', 'd', 'c'][self.rng.below(4)]).collect();
+                        let ad = self.rng.below(5);
+                        self.emit(format!("iterd q{} dec={} pan={} add={}", q, dec, k, ad));
+                        for a in 0..NARCH {
+                            self.resync_live(a);
+                        }
+                    }
+                    _ => {
+                        if let Some(h) = self.pick_any_ent() {
+                            let kk = self.knd();
+                            let nm = if self.rng.chance(50) { "find" } else { "findb" };
+                            self.emit(format!("{} q{} {} {} pan=0 add=3", nm, q, kk, h.0));
+                        }
+                    }
+                }
+            }
+        }
+    }
     fn dump_all(&mut self) {
         for a in 0..NARCH {
             self.emit(format!("dump {}", a));
@@ -577,9 +666,15 @@ impl<'a> G<'a> {
         }
         for i in order {
             if self.st.worlds[i].is_some() {
-                self.emit(format!("drop {}", i));
+                if self.fault_profile && self.rng.chance(50) {
+                    let n = self.rng.below(40);
+                    self.emit(format!("drop {} fault={}", i, n));
+                } else {
+                    self.emit(format!("drop {}", i));
+                }
             }
         }
+        self.emit("end".to_string());
     }
 }
 
@@ -598,6 +693,10 @@ pub fn run_sequence(st: &mut St, seed: u64, maxops: usize, profile: &str) {
         maxops,
         ncols,
         recent_dead: Vec::new(),
+        in_battery: false,
+        panics: 0,
+        fault_profile: profile == "fault",
+        own: Vec::new(),
     };
     // initial capacities
     let caps: Vec<String> = (0..NARCH)
@@ -620,16 +719,32 @@ pub fn run_sequence(st: &mut St, seed: u64, maxops: usize, profile: &str) {
         "forge" => [14, 6, 10, 6, 8, 2, 6, 2, 3, 30, 8, 3, 2],
         "events" => [18, 10, 16, 4, 4, 2, 14, 3, 4, 1, 0, 2, 22],
         "borrow" => [10, 4, 5, 2, 2, 2, 2, 1, 1, 0, 0, 1, 0],
+        "fault" => [18, 8, 10, 4, 4, 3, 6, 2, 3, 1, 0, 1, 2],
+        "overflow" => [22, 10, 34, 6, 6, 1, 10, 2, 2, 0, 0, 3, 2],
         _ => [18, 9, 14, 7, 12, 6, 14, 3, 4, 5, 2, 4, 2],
     };
-    let nest_pct = match profile { "borrow" => 55, "mix" => 4, _ => 0 };
-    let total: usize = wts.iter().sum();
     // focus archetypes so that positions are really recycled
     let focus: Vec<usize> = {
         let k = 1 + g.rng.below(3);
         (0..k).map(|_| g.rng.below(NARCH)).collect()
     };
+    let nest_pct = match profile { "borrow" => 55, "mix" => 4, "fault" => 6, _ => 0 };
+    let fault_pct = match profile { "fault" => 22, _ => 0 };
+    if profile == "overflow" {
+        // histories that cross the 2^32 boundary: preset the generations of (still empty) archetypes
+        const VMAX: u64 = 4294967295;
+        for a in focus.clone() {
+            let sv = if g.rng.chance(75) { VMAX - g.rng.below(3) as u64 } else { 1 + g.rng.below(3) as u64 };
+            let av = if g.rng.chance(60) { VMAX - g.rng.below(5) as u64 } else { 1 + g.rng.below(3) as u64 };
+            g.emit(format!("preset {} {} {}", a, sv, av));
+        }
+    }
+    let total: usize = wts.iter().sum();
     while g.budget() {
+        if fault_pct > 0 && g.rng.chance(fault_pct) {
+            g.fault_op();
+            continue;
+        }
         if nest_pct > 0 && g.rng.chance(nest_pct) {
             if profile == "borrow" && g.rng.chance(12) {
                 g.nest_pairs();
